@@ -34,6 +34,7 @@ type tcase struct {
 	dstcap   int
 	misalign int
 	jpegAdv  bool // adversarial JPEG: the cross-build comparison is subject to the range predicate
+	hostile  bool // deliberately malformed / corrupted input
 }
 
 func kindOf(codec string) string {
